@@ -184,7 +184,149 @@ def run(ctx):
     else:
         ctx.viol("N4", ca, ca.node, "commonancestors reads %s of its arguments; by definition it is the common prefix of the `ancestors` chains "
                  "of all of them alike" % sorted(read), construct="commonancestors reads %s" % sorted(read))
+    # ---- N5: siblings keep the parent's child order (structural part: how the result is assembled from the parent's
+    # children; the selection test itself is N2/C17's subject)
+    from .common import expand_straightline
+    for m in T.MIXINS:
+        f = p.func(m, "siblings")
+        cfg = typer.cfg_of(f)
+        for rn in cfg.stmt_nodes(("return",)):
+            v = rn.ast.value
+            if v is None:
+                continue
+            e = expand_straightline(rn, v, depth=4)
+            verdict = _order_of(e)
+            if verdict == "empty":
+                continue
+            if verdict is True:
+                ctx.inst("N5", f, rn.ast, "siblings assembled from the parent's children in their order")
+            elif verdict is None:
+                ctx.notes.append("N5: the way %s assembles its result is not followed (`%s`)" % (f.qual, norm(e)[:80]))
+            else:
+                ctx.viol("N5", f, rn.ast, "siblings are not returned in the parent's child order: %s" % verdict,
+                         construct="%s.siblings order: %s" % (m, verdict))
+    # ---- N6: no deferred computation (generator expression, lambda, nested function) created inside a loop reads a
+    # variable the loop rebinds, unless it is consumed on the spot: when it finally runs it sees the LAST binding
+    scope = list(members(p)) + [g for g in p.all_funcs if g.module.relpath == UTIL and g.cls is None and g.outer is None]
+    seen_f = set()
+    for f in scope:
+        if f in seen_f or f.is_lambda:
+            continue
+        seen_f.add(f)
+        for why, node in _late_binding(f.node):
+            ctx.viol("N6", f, node, why)
+        ctx.inst("N6", f, f.qual, "no deferred computation captures a loop-rebound variable")
     ctx.floor("N1", 30)
     ctx.floor("N2", 8)
     ctx.floor("N3", 30)
     ctx.extra["effect_summary"] = {f.qual: sorted({e.kind for e in pur.effects(f)}) for f in members(p)}
+
+
+def _order_of(e):
+    """True: in child order; None: not followed; 'empty'; or a text saying how the order is disturbed"""
+    if (isinstance(e, ast.Call) and norm(e.func) == "tuple" and not e.args) or (isinstance(e, ast.Tuple) and not e.elts):
+        return "empty"
+    if isinstance(e, ast.Call) and isinstance(e.func, ast.Name) and e.func.id in ("tuple", "list") and len(e.args) == 1:
+        return _order_of(e.args[0])
+    if isinstance(e, ast.Call) and isinstance(e.func, ast.Name) and e.func.id in ("reversed", "sorted", "set", "frozenset"):
+        return "the result passes through %s()" % e.func.id
+    if isinstance(e, (ast.GeneratorExp, ast.ListComp)):
+        if len(e.generators) != 1:
+            return None
+        g = e.generators[0]
+        it = g.iter
+        if isinstance(it, ast.Call) and isinstance(it.func, ast.Name) and it.func.id in ("reversed", "sorted", "set", "frozenset"):
+            return "the children are iterated through %s()" % it.func.id
+        if isinstance(it, ast.Attribute) and it.attr in ("children", "__children_or_empty") and isinstance(e.elt, ast.Name) \
+                and isinstance(g.target, ast.Name) and e.elt.id == g.target.id:
+            return True
+        return None
+    if isinstance(e, ast.BinOp) and isinstance(e.op, ast.Add):
+        parts = []
+
+        def flat(x):
+            if isinstance(x, ast.BinOp) and isinstance(x.op, ast.Add):
+                flat(x.left)
+                flat(x.right)
+            else:
+                parts.append(x)
+        flat(e)
+        rank = []
+        base = None
+        for prt in parts:
+            if isinstance(prt, ast.Call) and isinstance(prt.func, ast.Name) and prt.func.id in ("tuple", "list") and len(prt.args) == 1:
+                prt = prt.args[0]
+            if not (isinstance(prt, ast.Subscript) and isinstance(prt.slice, ast.Slice) and prt.slice.step is None):
+                return None
+            b = norm(prt.value)
+            if base is not None and b != base:
+                return None
+            base = b
+            lo, hi = prt.slice.lower, prt.slice.upper
+            if lo is None and hi is not None:
+                rank.append(0)   # [:i]  the part before
+            elif lo is not None and hi is None:
+                rank.append(1)   # [i+1:] the part behind
+            else:
+                return None
+        if rank == sorted(rank) and len(set(rank)) == len(rank):
+            return True
+        return "the part behind the node (`%s`) is placed before the part in front of it" % norm(parts[0])
+    return None
+
+
+def _late_binding(fnode):
+    CONSUMERS = ("tuple", "list", "set", "frozenset", "any", "all", "sum", "max", "min", "sorted", "next", "dict", "len", "enumerate", "zip")
+    out = []
+    for loop in [n for n in walk_own(fnode) if isinstance(n, (ast.For, ast.While))]:
+        rebound = set()
+        for n in ast.walk(loop):
+            if isinstance(n, ast.Name) and isinstance(n.ctx, ast.Store):
+                rebound.add(n.id)
+        parents = {}
+        for n in ast.walk(loop):
+            for c in ast.iter_child_nodes(n):
+                parents[id(c)] = n
+        for d in ast.walk(loop):
+            if not isinstance(d, (ast.Lambda, ast.GeneratorExp, ast.FunctionDef)):
+                continue
+            if isinstance(d, ast.GeneratorExp):
+                own = {x.id for g in d.generators for x in ast.walk(g.target) if isinstance(x, ast.Name)}
+                deferred = [d.elt] + [c for g in d.generators for c in g.ifs] + [g.iter for g in d.generators[1:]]
+            elif isinstance(d, ast.Lambda):
+                own = {a.arg for a in d.args.args + d.args.kwonlyargs}
+                deferred = [d.body]
+            else:
+                own = {a.arg for a in d.args.args + d.args.kwonlyargs} | {x.id for x in ast.walk(d) if isinstance(x, ast.Name) and isinstance(x.ctx, ast.Store)}
+                deferred = list(d.body)
+            free = {x.id for part in deferred for x in ast.walk(part) if isinstance(x, ast.Name) and isinstance(x.ctx, ast.Load)} - own
+            # names the closure itself rebinds in comprehensions nested inside it do not count
+            captured = sorted(free & rebound)
+            if not captured:
+                continue
+            par = parents.get(id(d))
+            consumed = False
+            if isinstance(par, ast.Call) and any(a is d for a in par.args):
+                fn = par.func
+                if isinstance(fn, ast.Name) and fn.id in CONSUMERS:
+                    consumed = True
+                if isinstance(fn, ast.Attribute) and fn.attr in ("join", "extend", "update"):
+                    consumed = True
+                if isinstance(fn, ast.Name) and fn.id in ("filter", "map"):
+                    gp = parents.get(id(par))
+                    consumed = isinstance(gp, ast.Call) and isinstance(gp.func, ast.Name) and gp.func.id in CONSUMERS
+            if isinstance(par, (ast.For, ast.comprehension)) and getattr(par, "iter", None) is d:
+                consumed = True
+            if isinstance(par, ast.keyword) and par.arg == "key":
+                consumed = True
+            if isinstance(d, ast.FunctionDef):
+                # a nested def that is only called inside the same iteration
+                calls = [c for c in ast.walk(loop) if isinstance(c, ast.Call) and isinstance(c.func, ast.Name) and c.func.id == d.name]
+                uses = [x for x in ast.walk(loop) if isinstance(x, ast.Name) and x.id == d.name and isinstance(x.ctx, ast.Load)]
+                consumed = bool(calls) and len(calls) == len(uses)
+            if not consumed:
+                out.append(("a %s created inside the loop reads %s, which the loop rebinds, and is not consumed on the spot: when it runs "
+                            "it sees the last value only (late binding), so earlier iterations are ignored" % (
+                                {"GeneratorExp": "generator expression", "Lambda": "lambda", "FunctionDef": "nested function"}[type(d).__name__],
+                                ", ".join("`%s`" % c for c in captured)), d))
+    return out
